@@ -565,6 +565,79 @@ def check_C02(ctx):
                 problems=bad[:5], lines=list(h.s.lines), tags=dict(call='invariant-undeclare')))
         ctx.case(('undeclare-template', k, mode))
         h.finish(SECTIONS_L3, 'C02 undeclare template')
+    # 4. a manager and its `copy.copy` side by side
+    _manager_copies(ctx, 25 if ctx.tier == 'quick' else 250)
+
+
+def _manager_copies(ctx, n):
+    """`copy.copy(bdd)`: the copy is a manager of its own.  A used manager (warm computed table,
+    held references) is copied; then both go on independently — each allocates node numbers on its
+    own, so the same number soon names different functions in the two — and every connective / ITE
+    result in either is compared with the truth tables; structure, counts and canonicity of both
+    after every step; the final states of both are compared with the model."""
+    rng = ctx.rng
+    for k in range(n):
+        if ctx.time_left() < 5:
+            break
+        names = [chr(ord('a') + i) for i in range(rng.randint(2, 4))]
+        h0 = History(ctx, names)
+        for _ in range(rng.randint(10, 40)):
+            h0.step(dict(var=4, apply=8, ite=3, hold=4, release=1, gc=1, swap=0.5))
+        s = h0.s
+        ans = s.op(0, 'mcopy', 1)
+        if not ans.startswith('ok'):
+            ctx.violation('copy.copy(bdd) raised', dict(lines=list(s.lines), got=ans, tags=dict(call='mcopy')))
+            s.close()
+            continue
+        s.ledger[1] = dict(s.ledger.get(0, {}))
+        h1 = History.__new__(History)
+        h1.ctx, h1.rng, h1.s, h1.mid, h1.dyn = ctx, rng, s, 1, False
+        h1.pool, h1.held, h1.held_tt = list(h0.pool), list(h0.held), {}
+        sp = Space(names)
+        bad = h1.check(probe=True) or canon_problems(h1.b, names)
+        asked = []
+        for step in range(rng.randint(20, 60)):
+            if bad:
+                break
+            h = h0 if rng.random() < 0.5 else h1
+            other = h1 if h is h0 else h0
+            h.prune()
+            if len(h.pool) < 2:
+                h.add(s.op(h.mid, 'var', rng.choice(names)))
+                continue
+            tt = TT(h.b, names)
+            r = rng.random()
+            if r < 0.25 and asked:
+                # the question the OTHER manager was asked (same operand numbers if still nodes here)
+                g, u, v = rng.choice(asked)
+                if not all(abs(x) in h.b._succ for x in (g, u, v)):
+                    continue
+            elif r < 0.85:
+                g, u, v = h.pick(), h.pick(), h.pick()
+            else:
+                h.step(dict(var=2, hold=3, release=1, gc=1))
+                bad = h.check() or []
+                continue
+            want = sp.ite(tt.of(g), tt.of(u), tt.of(v))
+            ans = s.op(h.mid, 'ite', g, u, v)
+            res = h.add(ans)
+            asked.append((g, u, v))
+            ctx.evaluations += 1
+            if res is None or TT(h.b, names).of(res) != want:
+                ctx.violation('ite wrong in a manager and its copy working side by side', dict(
+                    lines=list(s.lines), mgr=h.mid, got=ans, tags=dict(call='mcopy-ite')))
+                bad = ['reported']
+                break
+            bad = (h.check(probe=(rng.random() < 0.2)) or canon_problems(h.b, names)
+                   or other.check() or [])
+        if bad and bad != ['reported']:
+            ctx.violation('a manager or its copy is damaged', dict(
+                problems=bad[:4], lines=list(s.lines), tags=dict(call='mcopy-invariant')))
+        s.state(0)
+        s.state(1)
+        ctx.case(('mcopy', k, len(s.lines)))
+        ctx.add_session(s, SECTIONS_L3, 'C02 manager copy')
+        s.close()
 
 
 # ---------------------------------------------------------------------------
